@@ -28,6 +28,9 @@ from collections import Counter
 from happysimulator.components.network.conditions import datacenter_network, local_network, lossy_network, slow_network
 from happysimulator.components.network.link import NetworkLink
 from happysimulator.components.network.network import Network
+from happysimulator.components.queue import Queue
+from happysimulator.components.queue_driver import QueueDriver
+from happysimulator.components.queue_policy import FIFOQueue
 from happysimulator.components.resource import Resource
 from happysimulator.components.server.server import Server
 from happysimulator.core.entity import Entity
@@ -50,7 +53,7 @@ from simkit.world import BudgetExceeded, InvalidScenario, Monitor, Violation, re
 
 INF = 1 << 62
 P = "C06"
-NODE_KINDS = ("plain", "gen", "server", "holder")
+NODE_KINDS = ("plain", "gen", "server", "holder", "qworker")
 FAULT_KINDS = ("crash", "pause", "partition", "latency", "loss", "capacity", "randpart")
 CANCEL_MODES = ("never", "pre", "post", "mid")
 FAULT_CLASS = {
@@ -153,7 +156,7 @@ class Relay(Entity):
 
     def handle_event(self, event):
         md = event.context["metadata"]
-        return [Event(time=Instant(md["at"]), event_type="job", target=self.w.node_ent[md["to"]],
+        return [Event(time=Instant(md["at"]), event_type="job", target=self.w.job_target.get(md["to"], self.w.node_ent[md["to"]]),
                       context={"metadata": {"m": md["m"]}})]
 
 
@@ -265,6 +268,36 @@ class Holder(Entity):
         return [Event(time=self.now, event_type="out", target=self.sink, context={"metadata": {"m": m}})]
 
 
+class QWorker(Entity):
+    """Worker behind an explicitly wired repo Queue -> QueueDriver (not a QueuedResource).  `limit` 1: takes one item
+    at a time; has_capacity() is derived from the clock (busy until start + service), so a process killed by a crash
+    leaves no stale state in the worker itself."""
+
+    kind = "qworker"
+
+    def __init__(self, name, world, cfg, sink):
+        super().__init__(name)
+        self.w, self.sink = world, sink
+        self.service_us = int(cfg["service_us"])
+        self.limit = int(cfg.get("limit", 0))
+        self.busy_until = -1
+
+    def has_capacity(self) -> bool:
+        return not self.limit or self.now.nanoseconds >= self.busy_until
+
+    def handle_event(self, event):
+        m = event.context["metadata"]["m"]
+        self.w.act(self, "enter", m)
+        self.busy_until = self.now.nanoseconds + self.service_us * 1000
+        return self._proc(m)
+
+    def _proc(self, m):
+        yield self.service_us / 1e6
+        self.w.act(self, "resume", m)
+        self.w.act(self, "emit", m)
+        return [Event(time=self.now, event_type="out", target=self.sink, context={"metadata": {"m": m}})]
+
+
 class NetNode(Entity):
     def __init__(self, name, world):
         super().__init__(name)
@@ -296,6 +329,8 @@ def validate(sc: dict) -> None:
                     raise InvalidScenario("holder timing")
             if n["kind"] == "server" and (int(n["service_us"]) < 1 or int(n.get("concurrency", 1)) < 1):
                 raise InvalidScenario("server")
+            if n["kind"] == "qworker" and (int(n["service_us"]) < 1 or n.get("limit", 0) not in (0, 1)):
+                raise InvalidScenario("qworker")
             if n["kind"] == "gen":
                 if not n["steps"] or any(int(s[0]) < 1 for s in n["steps"]):
                     raise InvalidScenario("steps")
@@ -419,6 +454,8 @@ class FaultWorld:
         self.resources: dict[str, Resource] = {}
         self.res_cfg: dict[str, float] = {}
         self.jobs: list[tuple] = []            # (t_ns, entity, m)
+        self.queues: dict[str, Queue] = {}
+        self.job_target: dict[str, Entity] = {}
         self.job_times: dict[str, dict] = {}   # name -> {m: t_ns}
         drain_ns = 0
         for i, n in enumerate(sc["nodes"]):
@@ -434,6 +471,14 @@ class FaultWorld:
                     e = GenNode(name, self, n, sink)
                 elif kind == "server":
                     e = ProbeServer(name, self, n, sink)
+                elif kind == "qworker":
+                    e = QWorker(name, self, n, sink)
+                    q = Queue(name=f"q{side}{i}", policy=FIFOQueue())
+                    drv = QueueDriver(name=f"d{side}{i}", queue=q, target=e)
+                    q.egress = drv
+                    extra = [q, drv]
+                    self.queues[name] = q
+                    self.job_target[name] = q          # work is sent to the queue, the fault names the worker
                 else:
                     res = Resource(f"r{side}{i}", capacity=n["cap"])
                     self.resources[res.name] = res
@@ -450,8 +495,10 @@ class FaultWorld:
                 times = self._job_times(n["period_us"], n.get("phase_us", 0), n.get("skip", []))
                 self.job_times[name] = {}
                 for m, t in enumerate(times):
-                    self.jobs.append((t, e, m))
+                    self.jobs.append((t, self.job_target.get(name, e), m))
                     self.job_times[name][m] = t
+                if kind == "qworker":
+                    drain_ns = max(drain_ns, (len(times) + 8) * n["service_us"] * 1000)
                 if kind == "holder":
                     co = extra[1]
                     self.job_times[co.name] = {}
@@ -472,7 +519,8 @@ class FaultWorld:
         if net is not None:
             nn = [NetNode(f"n{j}", self) for j in range(net["n"])]
             ents.extend(nn)
-            for netname in ("net", "netb"):
+            # twin_first: the never-faulted twin network is registered first, every fault names "net" explicitly
+            for netname in (("netb", "net") if net.get("twin_first") else ("net", "netb")):
                 nw = Network(name=netname)
                 self.nets[netname] = nw
                 for l in net["links"]:
@@ -553,7 +601,7 @@ class FaultWorld:
                             evs.append(Event(time=Instant(t_send), event_type="relay", target=self.relay,
                                              context={"metadata": {"to": name, "at": t, "m": m0 + k}}))
                         else:
-                            self.jobs.append((t, e, m0 + k))
+                            self.jobs.append((t, self.job_target.get(name, e), m0 + k))
                         ncfg = sc["nodes"][int(base)]
                         if ncfg["kind"] == "holder" and "skip" in ncfg:
                             # avoidance mode (nothing may ever queue outside a window): the extra job replaces the
@@ -648,7 +696,8 @@ class FaultWorld:
         if k == "randpart":
             names = [f"n{x}" for x in f["nodes"]]
             obj = RandomPartition(nodes=names, mtbf=f["mtbf_ms"] / 1000.0, mttr=f["mttr_ms"] / 1000.0,
-                                  seed=f["rseed"], network_name="net" if f.get("named", True) else None)
+                                  seed=f["rseed"], network_name="net" if f.get("named", True)
+                                  or (self.sc.get("net") or {}).get("twin_first") else None)
             if f.get("cancel", "never") == "never":
                 for x in names:
                     for y in names:
@@ -672,7 +721,7 @@ class FaultWorld:
             obj = ReduceCapacity(name, factor=f["factor"], start=ssec, end=esec)
             return obj, [(("cap", name), s, e, f["factor"])], [(f"fault.capacity.reduce:{name}", s),
                                                                 (f"fault.capacity.restore:{name}", e)]
-        netname = "net" if f.get("named", True) else None
+        netname = "net" if f.get("named", True) or (self.sc.get("net") or {}).get("twin_first") else None
         if k == "partition":
             a = [f"n{x}" for x in f["a"]]
             b = [f"n{x}" for x in f["b"]]
@@ -1098,6 +1147,30 @@ class FaultWorld:
         tl = self.tl
         # the engine delivers one event past end_time; if that was a fault edge the instant may be half-applied
         self.check_state(t_end, force=True, after_fault_event=t_end > self.sim_end_ns)
+        # (ii) explicit Queue -> QueueDriver -> worker: once every window is over and arrivals have stopped, the queue
+        # drains and everything that arrived after the last restart was handled (bounded liveness)
+        for name, q in self.queues.items():
+            key = ("node", name)
+            if not tl.has(key):
+                continue
+            last_end = max(w[1] for w in tl.w[key])
+            if last_end >= self.end_ns:
+                continue
+            ent = self.node_ent[name]
+            entered = {e[2] for e in self.logs.get(name, ()) if e[1] == "enter"}
+            late = [m for m, t in self.job_times[name].items() if t >= last_end and m not in entered]
+            if q.depth > 0 or late:
+                done = {e[2] for e in self.logs.get(name, ()) if e[1] == "resume"}
+                killed = any(m in entered and m not in done for m in self.job_times[name])
+                how = "completion-hook-of-killed-item-lost" if ent.limit and killed else "driver-never-woken"
+                raise Violation(f"{P}/queue-stalled-after-restart/QueueDriver/{how}",
+                                f"{name} (behind {q.name}): last window ended at {last_end}ns, arrivals stopped at {self.end_ns}ns, "
+                                f"run ended at {t_end}ns with queue depth {q.depth}; jobs arrived after the restart and never "
+                                f"handled: {sorted(late)[:6]}")
+            if any(tl.active(key, t) for t in self.job_times[name].values()):
+                self.c["probe.qworker_item_arrived_during_down_window"] = 1
+            if any(t >= last_end for t in self.job_times[name].values()):
+                self.c["probe.qworker_served_after_restart"] = 1
         # (ii) queue-fronted targets: every job accepted while up is eventually handled
         for name, ent in self.node_ent.items():
             key = ("node", name)
